@@ -59,6 +59,8 @@ func runC17(e *Env) error {
 		"the real engine must return \"\" and an error through which the sentinel is found with errors.As, and the Lean model must agree (class and cause); unresolved filter/function/test/macro/template names and a failing loader must surface; documented tolerances (undefined variable/attribute, ignore missing) must not; " +
 		"a loader that has the nested template but fails, in every arrangement of 1–4 loaders (before/after loaders that do not know the name, ArrayLoader, ChainLoader) × loading statement × place in the template structure × plain/relative name with healthy decoys, cold and warm with the cache off, rendered twice; " +
 		"macro calls stored (set, list, hash, conditional, macro argument, include with) before they are printed once, several times or never, every invocation failing in turn: an invocation that was made and failed fails the render; " +
+		"every failing program also through every other top-level render call (Engine.RenderTo, Template.Render, Template.RenderTo, the engine-level ones in debug mode) and into every kind of io.Writer (bare Write, io.StringWriter, bytes.Buffer, strings.Builder, the library's buffers, bufio, file, pipe, MultiWriter, http recorder): same failure, same cause; " +
+		"twig.FileSystemLoader over real directories where the nested (or top-level) template file is there but cannot be read (directory in its place, links, permissions — probed), for every loading statement × place × plain/suffixed/relative name × arrangement of search directories (older copy in a later directory) × cold/memoised: the read error is the error of the render; " +
 		"non-trivial = program with ≥ 1 spy invocation; distinct by program × failing invocation"
 	// unresolved names and tolerances (implementation-only)
 	table := []struct {
@@ -156,6 +158,10 @@ func runC17(e *Env) error {
 			r.Violate(Violation{Key: "tolerance-broken", What: fmt.Sprintf("%s: documented tolerance now fails: %s", tc.name, im.Msg),
 				Broken: "theorem C17_tolerances", Replay: c.replay(im, Outcome{})})
 		}
+		// the same through every other top-level entry point and every kind of writer (c17_routes.go)
+		if routeOracle(e, c, im, renderRoutes[1:], "tbl:"+tc.name) {
+			return nil
+		}
 	}
 	// a loader failure keeps its cause (implementation-only: needs a custom loader)
 	sentinel := errors.New("disk on fire")
@@ -217,6 +223,8 @@ func runC17(e *Env) error {
 	}
 	// loaders: every arrangement of several loaders around the one that fails (c17_loaders.go)
 	loaderArrangementOracle(e)
+	// the library's FileSystemLoader over real files that are there but cannot be read (c17_fsloader.go)
+	fsLoaderOracle(e)
 	// macro calls that are stored before they are printed (c17_stored.go)
 	if err := storedCallsOracle(e); err != nil {
 		return err
@@ -255,6 +263,9 @@ func runC17(e *Env) error {
 			continue
 		}
 		_ = mo
+		if routeOracle(e, c, dry, []*renderRoute{nextRoute()}, "dry run") {
+			return nil
+		}
 		total := len(dry.Spies)
 		r.Hit(fmt.Sprintf("spy-invocations:%d", min(total, 10)))
 		if i < 1 {
@@ -276,6 +287,10 @@ func runC17(e *Env) error {
 					Broken: "theorem C17_propagates no longer describes the code (implementation-only oracle: errors.As on the sentinel)", Replay: cf.replay(im, Outcome{})}) {
 					return nil
 				}
+			}
+			// the same failing invocation through another top-level entry point / writer kind (a different one each time)
+			if routeOracle(e, &cf, im, []*renderRoute{nextRoute()}, fmt.Sprintf("spy invocation %d of %d (%v) fails", k, total, dry.Spies[k])) {
+				return nil
 			}
 		}
 	}
